@@ -291,6 +291,8 @@ impl<A: AvxNum, T: FftNum> RadersAvx2<A, T> {
     // Do the necessary setup for rader's algorithm: Reorder the inputs into the output buffer, gather a sum of all inputs. Return the first input, and the aum of all inputs
     #[target_feature(enable = "avx2", enable = "avx", enable = "fma")]
     unsafe fn prepare_raders(&self, input: &[Complex<A>], output: &mut [Complex<A>]) {
+        #[cfg(feature = "verif_hooks")]
+        crate::verif_hooks::simd_entry(crate::verif_hooks::CPU_AVX | crate::verif_hooks::CPU_FMA | crate::verif_hooks::CPU_AVX2);
         let mut indexes = self.input_index_init;
 
         let index_multiplier = self.input_index_multiplier.clone();
@@ -325,6 +327,8 @@ impl<A: AvxNum, T: FftNum> RadersAvx2<A, T> {
     // Do the necessary finalization for rader's algorithm: Reorder the inputs into the output buffer, conjugating the input as we go, and add the first input value to every output value
     #[target_feature(enable = "avx2", enable = "avx", enable = "fma")]
     unsafe fn finalize_raders(&self, input: &[Complex<A>], output: &mut [Complex<A>]) {
+        #[cfg(feature = "verif_hooks")]
+        crate::verif_hooks::simd_entry(crate::verif_hooks::CPU_AVX | crate::verif_hooks::CPU_FMA | crate::verif_hooks::CPU_AVX2);
         // We need to conjugate elements as a part of the finalization step, and sadly we can't roll it into any other instructions. So we'll do it via an xor.
         let conjugation_mask =
             AvxVector256::broadcast_complex_elements(Complex::new(A::zero(), -A::zero()));
